@@ -55,6 +55,11 @@ func (e *c1mx) tokens(out *[]string) {
 	case 'c':
 		*out = append(*out, "c")
 		e.args[0].tokens(out)
+	case '[':
+		*out = append(*out, "[", fmt.Sprint(len(e.args)))
+		for _, a := range e.args {
+			a.tokens(out)
+		}
 	case '{':
 		*out = append(*out, "{", fmt.Sprint(len(e.decls)))
 		for _, d := range e.decls {
@@ -118,6 +123,15 @@ func (e *c1mx) cue(sb *strings.Builder) {
 		sb.WriteString("close(")
 		e.args[0].cue(sb)
 		sb.WriteString(")")
+	case '[':
+		sb.WriteString("[")
+		for i, a := range e.args {
+			if i > 0 {
+				sb.WriteString(", ")
+			}
+			a.cue(sb)
+		}
+		sb.WriteString("]")
 	case '{':
 		sb.WriteString("{")
 		for i, d := range e.decls {
@@ -205,6 +219,25 @@ func (g *c1mgen) structLit(depth int) *c1mx {
 func (g *c1mgen) value(depth int, l int, allowClose bool) *c1mx {
 	if g.r.Chance(1, 25) {
 		return &c1mx{op: 'B'}
+	}
+	if l == 3 && g.r.Chance(1, 3) {
+		// closed lists (the model has closed lists only): equal and different lengths
+		mk := func() *c1mx {
+			n := 1 + g.r.Intn(2)
+			if g.r.Chance(1, 6) {
+				n = g.r.Intn(4)
+			}
+			e := &c1mx{op: '['}
+			for i := 0; i < n; i++ {
+				e.args = append(e.args, g.scalar(0))
+			}
+			return e
+		}
+		e := mk()
+		if g.r.Chance(1, 2) {
+			e = &c1mx{op: '&', args: []*c1mx{e, mk()}}
+		}
+		return e
 	}
 	if l >= 2 && depth >= 0 && !g.r.Chance(1, 10) {
 		if depth < 0 {
@@ -361,10 +394,41 @@ func c1mProject(ctx *adt.OpContext, r adt.Runtime, v *adt.Vertex) (s string, bot
 	v.Finalize(ctx)
 	v = v.DerefValue()
 	isStruct := false
+	isList := func() bool {
+		for _, a := range v.Arcs {
+			if a.Label.IsInt() {
+				return true
+			}
+		}
+		return false
+	}
+	list := func() (string, bool) {
+		var parts []string
+		for _, a := range v.Arcs {
+			if !a.Label.IsInt() || a.ArcType == adt.ArcNotPresent || a.ArcType == adt.ArcPending {
+				continue
+			}
+			cs, cbot := c1mProject(ctx, r, a)
+			if cbot {
+				// a bottom element makes the list bottom (model rule)
+				return "bot", true
+			}
+			parts = append(parts, cs)
+		}
+		return "[" + strings.Join(parts, ",") + "]", false
+	}
 	switch b := v.BaseValue.(type) {
+	case *adt.ListMarker:
+		if b.IsOpen {
+			return "?", false
+		}
+		return list()
 	case *adt.Bottom:
 		if !b.ChildError {
 			return "bot", true
+		}
+		if isList() {
+			return list()
 		}
 		isStruct = true
 	case *adt.StructMarker:
